@@ -109,27 +109,14 @@ func VpHGcRewrite() {
 	if lean {
 		itersMax = 1
 	}
-	// one combined assumption (every vpAssume costs a model extraction):
+	// one combined assumption, issued after the records are set up (every vpAssume costs a model
+	// extraction):
 	//  - pickLog never hands out the file being written (rewrite asserts fid < maxFid)
 	//  - 0..2 iterators open; the limits only matter relative to 0..n records of 13 bytes
 	//  - seconds since 1970 < 2^39
-	vpAssume(vpAnd(vpAnd(fid < maxFid, iters0 <= itersMax),
+	pre := vpAnd(vpAnd(fid < maxFid, iters0 <= itersMax),
 		vpAnd(vpAnd(vpAnd(mbc >= 0, mbc <= maxN+2), vpAnd(mbs >= 0, mbs <= 14*(maxN+2))),
-			vpAnd(vpAnd(limit >= 0, limit <= maxN), clock < 1<<39))))
-	f := &logFile{MmapFile: &z.MmapFile{}, fid: fid, path: "vp-gc.vlog"}
-	wlf := &logFile{MmapFile: &z.MmapFile{}, fid: maxFid, path: "vp-cur.vlog"}
-	vlog.filesMap = map[uint32]*logFile{fid: f, maxFid: wlf}
-	vlog.maxFid = maxFid
-	vlog.discardStats = &discardStats{}
-	vlog.numActiveIterators.Store(int32(iters0))
-
-	// batch limits rewrite itself looks at while scanning (vlog.opt is Open's copy of db.opt)
-	vlog.opt.maxBatchCount = int64(mbc)
-	vlog.opt.maxBatchSize = int64(mbs)
-	db.opt = vlog.opt
-	db.threshold = &vlogThreshold{}
-	db.threshold.valueThreshold.Store(1 << 20)
-
+			vpAnd(vpAnd(limit >= 0, limit <= maxN), clock < 1<<39)))
 	// ---------------- the records of the file ----------------
 	ents := make([]*vpGcEnt, n)
 	prevEnd := uint32(vlogHeaderSize)
@@ -160,7 +147,21 @@ func VpHGcRewrite() {
 		prevEnd = e.off + 1
 		ents[i] = e
 	}
-	vpAssume(offsOK)
+	vpAssume(vpAnd(pre, offsOK))
+
+	f := &logFile{MmapFile: &z.MmapFile{}, fid: fid, path: "vp-gc.vlog"}
+	wlf := &logFile{MmapFile: &z.MmapFile{}, fid: maxFid, path: "vp-cur.vlog"}
+	vlog.filesMap = map[uint32]*logFile{fid: f, maxFid: wlf}
+	vlog.maxFid = maxFid
+	vlog.discardStats = &discardStats{}
+	vlog.numActiveIterators.Store(int32(iters0))
+
+	// batch limits rewrite itself looks at while scanning (vlog.opt is Open's copy of db.opt)
+	vlog.opt.maxBatchCount = int64(mbc)
+	vlog.opt.maxBatchSize = int64(mbs)
+	db.opt = vlog.opt
+	db.threshold = &vlogThreshold{}
+	db.threshold.valueThreshold.Store(1 << 20)
 
 	// ---------------- environment stubs ----------------
 	cur := -1
